@@ -139,9 +139,12 @@ mod proofs {
     let (m, l) = real_len(&goal, &cand, s);
     kani::cover!(m);
     kani::cover!(!m && goal.kind == cand.kind);
-    assert!(l.is_some() == m, "get_match_len accepts exactly what match_node accepts (one-token patterns)");
+    // stated as the property states it (not as equivalence of the two aggregators): a node
+    // that matches has a matched length, and a reported length never exceeds the node nor
+    // splits it (a leaf is matched whole)
+    assert!(!m || l.is_some(), "a matched node has a matched length");
     if let Some(n) = l {
-      assert!(n == 2, "matched length == the token's length: never exceeds the node");
+      assert!(n == 2, "matched length == the token's length: never exceeds the node, never splits it");
     }
   }
 }
